@@ -275,6 +275,8 @@ def _run(ctx, drivers_ok, bseeds, procs):
     P.product_stats(ctx, st, quick)
     P.rates_stats(ctx, st, quick)
     P.heston_stats(ctx, st, quick)
+    P.heston_path_stats(ctx, st, quick)
+    P.reuse_oracles(ctx, quick)
     P.lmm_stats(ctx, st, quick)
     P.default_time_stats(ctx, st, quick)
 
@@ -286,7 +288,8 @@ def _run(ctx, drivers_ok, bseeds, procs):
         'RNG stream identity between NumPy and Numba (same seed => same draws) is a runtime fact, re-measured on every run; '
         'the RNG itself (MT19937 + legacy polar Gaussian) is not modelled',
         'statistical unbiasedness of the implementation is validated (multi-seed Student-t / own-standard-error tests), not '
-        'proved; Euler-type schemes are biased by design and carry an explicit bias allowance; Heston QUADEXP, CIR EXACT, '
+        'proved; Euler-type schemes are biased by design and carry an explicit bias allowance; Heston QUADEXP is modelled given '
+        'norminvcdf(u) from the implementation (the inverse normal cdf itself is a parameter); CIR EXACT, '
         'Student-t copula (uniform / chi-square / Poisson draws), LMM multi-factor and N-factor simulators are not in the '
         'Lean model and are validated by oracles only',
         'multi-asset martingale property given L L^T = rho needs a multivariate Gaussian integral and is validated only',
